@@ -181,3 +181,32 @@ theorem C05_negotiation_tied :
       Gen.Negotiation.processLogEventLimits true true collectorLimit (collectorPeriod : Int) true agent =
         finalLogLimit agent collectorLimit collectorPeriod) :=
   ⟨tied_getEventConfig, fun s l c => (tied_newHarvestLimits s l c).1, fun a c p => (tied_processLogEventLimits a c p).1⟩
+
+/-! ## The fixed capacities as bounds over every offer sequence (corollaries of the C06 theorems) -/
+
+/-- **C05 (never more than 20 errors, 1/10/20 traces, 10 slow SQLs).**  For every sequence of offers, in any order and
+with any priorities / durations: the error heap holds exactly `min (offers) 20`, each trace heap `min (offers) K` for its
+own K ∈ {1, 10, 20}, and the slow-SQL collection at most 10 statements, each id once. -/
+theorem C05_fixed_capacity_bounds :
+    (∀ es : List Ev, ∃ a, runErr MaxErrors es = some a ∧ a.size = min es.length 20) ∧
+    (∀ es : List Ev, ∃ a, runTrace MaxRegularTraces es = some a ∧ a.size = min es.length 1) ∧
+    (∀ es : List Ev, ∃ a, runTrace MaxForcePersistTraces es = some a ∧ a.size = min es.length 10) ∧
+    (∀ es : List Ev, ∃ a, runTrace MaxSyntheticsTraces es = some a ∧ a.size = min es.length 20) ∧
+    (∀ obs : List Slow, (obs.foldl (slowObserve MaxSlowSQLs) []).length ≤ 10 ∧
+      ((obs.foldl (slowObserve MaxSlowSQLs) []).map (·.id)).Nodup) := by
+  refine ⟨?_, ?_, ?_, ?_, ?_⟩
+  · intro es
+    obtain ⟨a, h1, h2, _⟩ := C06_errors_topk MaxErrors (by decide) es
+    exact ⟨a, h1, by simpa [MaxErrors] using h2⟩
+  · intro es
+    obtain ⟨a, h1, h2, _⟩ := C06_traces_longest MaxRegularTraces (by decide) es
+    exact ⟨a, h1, by simpa [MaxRegularTraces] using h2⟩
+  · intro es
+    obtain ⟨a, h1, h2, _⟩ := C06_traces_longest MaxForcePersistTraces (by decide) es
+    exact ⟨a, h1, by simpa [MaxForcePersistTraces] using h2⟩
+  · intro es
+    obtain ⟨a, h1, h2, _⟩ := C06_traces_longest MaxSyntheticsTraces (by decide) es
+    exact ⟨a, h1, by simpa [MaxSyntheticsTraces] using h2⟩
+  · intro obs
+    have h := C06_slow_sql_topk MaxSlowSQLs obs
+    exact ⟨by simpa [MaxSlowSQLs] using h.1, h.2.1⟩
